@@ -629,3 +629,415 @@ Proof.
 Qed.
 
 Print Assumptions content_Delete.
+
+(* ================================================================== 2. Mkdir *)
+(* ---- 2a. zero slots ---- *)
+Lemma cd_slot_zero k : k < 16 -> slot zero_block k = repeat 0 32.
+Proof.
+  intros Hk. pose proof zero_block_length as Hz.
+  assert (L : length (slot zero_block k) = length (repeat 0 32)).
+  { rewrite slot_length, repeat_length; [reflexivity|]. rewrite Hz. lia. }
+  apply (nth_ext _ _ 0 0 L). intros n Hn. rewrite L, repeat_length in Hn.
+  rewrite nth_slot by exact Hn. rewrite get8_zero. symmetry. apply nth_repeat0.
+Qed.
+
+(* ---- 2b. the tree afterwards: the old nodes plus one new directory node ---- *)
+Definition tree_plus (T T' : list node) (newn : node) : Prop :=
+  forall (X : Type) (g : node -> list X),
+    (forall e ch kids ch' kids', g (NDir e ch kids) = g (NDir e ch' kids')) ->
+    Permutation (flat_map g (all_nodes T')) (g newn ++ flat_map g (all_nodes T)).
+
+Definition cd_own_ent (n : node) : list dirent := match n with NFile _ _ => [] | NDir e _ _ => [e] end.
+
+Lemma cd_own_file_in L e ch : In (NFile e ch) (flat_map cd_own_file L) <-> In (NFile e ch) L.
+Proof.
+  split.
+  - intros H. apply in_flat_map in H. destruct H as (n & Hn & Hi). destruct n as [e0 ch0|e0 ch0 k0]; [|destruct Hi].
+    destruct Hi as [<-|[]]. exact Hn.
+  - intros H. apply in_flat_map. exists (NFile e ch). split; [exact H|left; reflexivity].
+Qed.
+
+Lemma cd_own_ent_in L e : In e (flat_map cd_own_ent L) <-> exists ch kids, In (NDir e ch kids) L.
+Proof.
+  split.
+  - intros H. apply in_flat_map in H. destruct H as (n & Hn & Hi). destruct n as [e0 ch0|e0 ch0 k0]; [destruct Hi|].
+    destruct Hi as [<-|[]]. exists ch0, k0. exact Hn.
+  - intros (ch & kids & H). apply in_flat_map. exists (NDir e ch kids). split; [exact H|left; reflexivity].
+Qed.
+
+Lemma tree_plus_nodes T T' enew chn kn : tree_plus T T' (NDir enew chn kn) ->
+  (forall e ch, In (NFile e ch) (all_nodes T') <-> In (NFile e ch) (all_nodes T)) /\
+  (forall e, (exists ch kids, In (NDir e ch kids) (all_nodes T')) <->
+             (e = enew \/ exists ch kids, In (NDir e ch kids) (all_nodes T))).
+Proof.
+  intros P. split.
+  - intros e ch. pose proof (P _ cd_own_file (fun _ _ _ _ _ => eq_refl)) as Q. cbn [cd_own_file app] in Q.
+    rewrite <- (cd_own_file_in (all_nodes T') e ch), <- (cd_own_file_in (all_nodes T) e ch). split; intros H.
+    + exact (Permutation_in _ Q H).
+    + exact (Permutation_in _ (Permutation_sym Q) H).
+  - intros e. pose proof (P _ cd_own_ent (fun _ _ _ _ _ => eq_refl)) as Q. cbn [cd_own_ent app] in Q.
+    rewrite <- (cd_own_ent_in (all_nodes T') e), <- (cd_own_ent_in (all_nodes T) e). split; intros H.
+    + destruct (Permutation_in _ Q H) as [E|H']; [left; symmetry; exact E|right; exact H'].
+    + apply (Permutation_in _ (Permutation_sym Q)). destruct H as [->|H]; [left; reflexivity|right; exact H].
+Qed.
+
+(* ---- 2c. make_dir, every outcome, with the new tree and the frame visible ---- *)
+(* the blocks that are no FAT sectors, not blocks of a cluster that was free, and not the block
+   `blk` of the parent's slot are as before *)
+Definition mkx_frame (fsz : N) (v : vol) (d d' : disk) (blk : option N) : Prop :=
+  forall j, ~ PrBounds.in_fat v fsz j ->
+    (forall c0, 2 <= c0 -> fat_get d v 0 c0 = 0 -> ~ In j (cluster_blocks v c0)) ->
+    (forall b, blk = Some b -> j <> b) -> disk_get d' j = disk_get d j.
+(* every chain of the invariant but that of pcd is kept *)
+Definition mkx_chains (s : st) (v : vol) (T : list node) (d' : disk) (pcd : N) : Prop :=
+  forall h ch, In h (iv_hs s v T) -> h <> pcd -> chain_at (s_disk s) v h ch -> chain_at d' v h ch.
+Definition mkx_pc_ok (v : vol) (T : list node) (pcd : N) : Prop :=
+  pcd < 2 \/ In pcd (root_heads v) \/ exists e ch kids, In (NDir e ch kids) (all_nodes T) /\ e_cluster e = pcd.
+
+Definition mkx_err (fsz vid : N) (s : st) (vi : nat) (v : vol) (bl rch : list N) (T : list node) (s' : st) (v' : vol) : Prop :=
+  fs_inv_at fsz vid s' vi v' bl rch T /\ mkx_frame fsz v (s_disk s) (s_disk s') None /\ mkx_chains s v T (s_disk s') 0.
+
+Definition mkx_ok (fsz vid : N) (s : st) (vi : nat) (v : vol) (bl rch : list N) (T : list node) (dc : N) (pbl : list N)
+    (s' : st) (v' : vol) : Prop :=
+  exists bl' rch' T' c newe blk off bytes extra pcd pbl' pch' oblk,
+    fs_inv_at fsz vid s' vi v' bl' rch' T' /\ tree_plus T T' (NDir newe [c] []) /\ e_cluster newe = c /\
+    (2 <= c /\ c < v_clusters v + 2 /\ fat_get (s_disk s) v 0 c = 0) /\
+    (mkx_frame fsz v (s_disk s) (s_disk s') oblk /\ forall b, oblk = Some b -> In b pbl) /\ mkx_chains s v T (s_disk s') pcd /\ mkx_pc_ok v T pcd /\
+    (pcd = 0 \/ exists pch, chain_at (s_disk s) v pcd pch /\ pbl = data_blocks v pch) /\
+    ~ In (blk, off) (map node_pos (all_nodes T)) /\
+    slots_of (s_disk s') pbl' = map (upd_slot blk off bytes) (slots_of (s_disk s) pbl ++ extra) /\
+    Forall zero_slot extra /\ In (blk, off) (map fst (slots_of (s_disk s) pbl ++ extra)) /\
+    ((dc = CL_ROOT /\ pbl' = bl') \/
+     (dc <> CL_ROOT /\ bl' = bl /\ rch' = rch /\ chain_at (s_disk s') v dc pch' /\ pbl' = data_blocks v pch')).
+
+Theorem mkx_make_dir fsz vid s vi v bl rch T dc sfn pbl pp r s' :
+  fs_inv_at fsz vid s vi v bl rch T ->
+  dir_ok (s_disk s) v dc pp pbl -> NoDup pbl ->
+  (forall j, In j pbl -> ~ PrBounds.in_fat v fsz j /\
+     forall c0, 2 <= c0 -> fat_get (s_disk s) v 0 c0 = 0 -> ~ In j (cluster_blocks v c0)) ->
+  (dc = CL_ROOT \/ (2 <= dc /\ dc < v_clusters v + 2)) ->
+  ((dc = CL_ROOT /\ pbl = bl /\ pp = CL_ROOT) \/
+   (exists pe pch pkids, In (NDir pe pch pkids) (all_nodes T) /\ e_cluster pe = dc /\
+                         pbl = data_blocks v pch /\ chain_at (s_disk s) v dc pch /\ dc <> CL_ROOT)) ->
+  length sfn = 11%nat -> get8 sfn 0 <> 0 -> get8 sfn 0 <> 229 -> PrModes.dot_name sfn = false ->
+  ~ In sfn (map t_name (dir_shorts (s_disk s) pbl)) ->
+  mk_common fsz vi v s s' -> mk_outcome fsz v (iv_hs s v T) dc sfn pbl s r s' ->
+  exists v', geo_eq v v' /\ s_files s' = s_files s /\
+    match r with
+    | Ok _ => mkx_ok fsz vid s vi v bl rch T dc pbl s' v'
+    | _ => mkx_err fsz vid s vi v bl rch T s' v'
+    end.
+Proof.
+  intros Hinv Hok Hnd Hcls Hrange Hwhere Hlen H0 H229 Hdot Hfresh [Hvol Htabs Hblocks Hwrites] Hout.
+  destruct (mkd_facts _ _ _ _ _ _ _ _ Hinv) as (Hl & _ & _ & Ev & Evi & _ & Hv & _ & Hwf & _ & _ & Hfit).
+  destruct Hvol as (v' & Evols & G & Hpre').
+  assert (Ev' : s_vols s' = [v']) by (rewrite Evols, Ev, Evi; reflexivity).
+  destruct Htabs as (Edirs & Efiles & _ & Elock & _).
+  pose proof (PrBounds.pl_spc _ _ _ (fi_layout _ _ _ _ _ _ _ _ Hinv)) as Hspc.
+  pose proof (fi_disk _ _ _ _ _ _ _ _ Hinv) as [Droot Dtree Drootok Dnodes Dwf Dpos].
+  pose proof (iv_wf _ _ _ _ _ _ _ _ Hinv) as W.
+  set (hs := iv_hs s v T) in *.
+  assert (Hhs_tail : forall h, In h (flat_map node_heads T ++ pend_of s v) -> In h hs).
+  { intros h Hh. unfold hs, iv_hs, heads. rewrite <- app_assoc. apply in_or_app. right. exact Hh. }
+  assert (Hfinish : forall bl' rch' T' pc,
+            disk_inv (s_disk s') v bl' rch' T' (pend_of s v) ->
+            mkx_pc_ok v T pc ->
+            (forall h ch, In h hs -> h <> pc -> chain_at (s_disk s) v h ch -> chain_at (s_disk s') v h ch) ->
+            (forall e ch, In (NFile e ch) (all_nodes T) -> In (NFile e ch) (all_nodes T')) ->
+            (forall e ch kids, In (NDir e ch kids) (all_nodes T) -> exists ch' kids', In (NDir e ch' kids') (all_nodes T')) ->
+            fs_inv_at fsz vid s' vi v' bl' rch' T').
+  { intros bl' rch' T' pc Hdisk Hpc Hkeep K3 K4.
+    apply (mkd_finish fsz vid s s' vi v v' bl rch T bl' rch' T' Hinv Ev' G Hpre' Hblocks Edirs Efiles Elock Hdisk);
+      [|exact K3|exact K4].
+    exact (mkd_file_chains _ _ _ _ _ _ _ _ (s_disk s') pc Hinv Hpc Hkeep). }
+  exists v'. split; [exact G|]. split; [exact Efiles|].
+  destruct Hout as [s' Hd | s' c C1 C2 Cf Hnone W' Hkeep Hfr
+                   | s' c now tm blk off sl0 Hcl Hfind Hblk W' Hc Hkeep Hfr
+                   | s' c c' now tm pc pch Hcl Hnone Hnr Epc Hpch Epbl C1' C2' Cf' Hne Hfirst Hrest W' Hc Hpc' Hkeep Hfr].
+  - (* no free cluster: the disk is the same *)
+    split; [|split].
+    + apply (Hfinish bl rch T 0); [rewrite Hd; exact (fi_disk _ _ _ _ _ _ _ _ Hinv)|left; lia| |auto|].
+      * intros h ch _ _ Hch. rewrite Hd. exact Hch.
+      * intros e ch kids H. exists ch, kids. exact H.
+    + intros j _ _ _. rewrite Hd. reflexivity.
+    + intros h ch _ _ Hch. rewrite Hd. exact Hch.
+  - (* the cluster was taken and given back *)
+    split; [|split].
+    + apply (Hfinish bl rch T 0); [|left; lia|intros h ch Hh _; exact (Hkeep h ch Hh)|auto|intros e ch kids H; exists ch, kids; exact H].
+      apply (mkd_disk_keep _ _ _ _ _ _ _ _ _ Hinv W' Hkeep).
+      * intros h ch Hh Hch j Hj. destruct (iv_chain_block _ _ _ _ _ _ _ _ Hinv _ _ j Hh Hch Hj) as [A B].
+        exact (Hfr j A (B c C1 Cf)).
+      * intros E16 j Hj. destruct (iv_root16_block _ _ _ _ _ _ _ _ Hinv j E16 Hj) as [A B]. exact (Hfr j A (B c C1)).
+    + intros j A B _. exact (Hfr j A (B c C1 Cf)).
+    + intros h ch Hh _. exact (Hkeep h ch Hh).
+  - (* the parent had a free slot *)
+    destruct Hcl as [(C1 & C2 & Cf) Hdots Hzero].
+    destruct (mkd_new_node (s_disk s') v dc sfn c now tm blk off Hspc Hfit Hrange Hlen H0 H229 Hdot C1 C2 Hdots Hzero Hc)
+      as (A1 & A2 & A3 & A4 & A5 & A6 & A7 & A8).
+    set (newt := mkd_newt (v_fat32 v) sfn tm c blk off) in *. set (newn := mkd_newn (v_fat32 v) sfn tm c blk off) in *.
+    destruct (mkd_dir_slot fsz (s_disk s) (s_disk s') v dc pp pbl sfn c tm blk off sl0 Hwf Hnd Hcls Hok Hlen Hfresh
+                C1 Cf Hfind Hblk Hfr A1 A2) as (Hdok & (n1 & n2 & En & En') & Hblkin & Hinvalid).
+    fold newt in En'.
+    assert (Hpos : ~ In (node_pos newn) (map node_pos (all_nodes T))).
+    { rewrite A6. apply (mkd_pos_fresh _ _ _ _ _ _ _ _ blk off Hinv). left. exact Hinvalid. }
+    assert (Hother : forall h ch j, In h hs -> chain_at (s_disk s) v h ch -> In j (data_blocks v ch) -> j <> blk ->
+              disk_get (s_disk s') j = disk_get (s_disk s) j).
+    { intros h ch j Hh Hch Hj Hjb. destruct (iv_chain_block _ _ _ _ _ _ _ _ Hinv _ _ j Hh Hch Hj) as [A B].
+      exact (Hfr j A (B c C1 Cf) Hjb). }
+    (* the slots of the parent *)
+    set (bytes := ser_bytes (v_fat32 v) (mk_dirent sfn tm tm A_DIRECTORY c 0 blk off)) in *.
+    assert (Hbytes : length bytes = 32%nat) by (apply ser_bytes_length; exact Hlen).
+    assert (Hin0 : In (blk, off, sl0) (slots_of (s_disk s) pbl)) by exact (proj1 (find_some _ _ Hfind)).
+    assert (Hslots : slots_of (s_disk s') pbl = map (upd_slot blk off bytes) (slots_of (s_disk s) pbl ++ [])).
+    { rewrite app_nil_r. destruct (In_slots_of _ _ _ Hin0) as (b & i & Hb & Hi & Et). injection Et as -> -> _.
+      apply (cd_slots_one_write (s_disk s) (s_disk s') pbl b i bytes (Hwf b) Hi Hbytes); [|exact Hblk].
+      intros j Hj Hne. destruct (Hcls j Hj) as [A B]. exact (Hfr j A (B c C1 Cf) Hne). }
+    assert (Hkey : In (blk, off) (map fst (slots_of (s_disk s) pbl ++ []))).
+    { rewrite app_nil_r. apply in_map_iff. exists (blk, off, sl0). split; [reflexivity|exact Hin0]. }
+    assert (Enew : e_cluster (t_entry (v_fat32 v) newt) = c) by (injection A8 as E; exact E).
+    assert (Hframe : mkx_frame fsz v (s_disk s) (s_disk s') (Some blk) /\ forall b, Some blk = Some b -> In b pbl).
+    { split; [intros j A B Hb; exact (Hfr j A (B c C1 Cf) (Hb blk eq_refl))|]. intros b E. injection E as <-. exact Hblkin. }
+    assert (Hchains : mkx_chains s v T (s_disk s') 0) by (intros h ch Hh _; exact (Hkeep h ch Hh)).
+    destruct Hwhere as [(-> & -> & ->)|(pe & pch & pkids & HP & Edc & -> & Hpch & Hnr)].
+    + (* the parent is the root *)
+      destruct (mkd_tree_root _ _ _ _ _ _ _ _ Hinv (s_disk s') c newn newt W' A7 A8 Hpos A3 bl rch n1 n2)
+        as (Hdisk & K3 & K4); try assumption.
+      * unfold root_dir in *. destruct (v_fat32 v) eqn:E32; [|exact Droot]. destruct Droot as (Hch & Ebl).
+        split; [|exact Ebl]. apply Hkeep; [|exact Hch]. apply iv_root_head_in. unfold root_heads. rewrite E32. left. reflexivity.
+      * intros h ch Hh. exact (Hkeep h ch (Hhs_tail h Hh)).
+      * intros h ch Hh Hch j Hj. apply (Hother h ch j (Hhs_tail h Hh) Hch Hj). intros ->.
+        exact (proj2 (proj2 (iv_root_blocks _ _ _ _ _ _ _ _ Hinv)) h ch blk Hh Hch Hj Hblkin).
+      * exact (Hdok CL_ROOT Drootok).
+      * exists bl, rch, (ins newn (length n1) T), c, (t_entry (v_fat32 v) newt), blk, off, bytes, [], 0, bl, rch, (Some blk).
+        split; [apply (Hfinish bl rch _ 0 Hdisk); [left; lia|intros h ch Hh _; exact (Hkeep h ch Hh)|exact K3|exact K4]|].
+        split; [intros X g _; exact (ins_perm newn (length n1) X g A7 T)|].
+        split; [exact Enew|]. split; [repeat split; assumption|]. split; [exact Hframe|]. split; [exact Hchains|].
+        split; [left; lia|]. split; [left; reflexivity|]. split; [rewrite <- A6; exact Hpos|].
+        split; [exact Hslots|]. split; [constructor|]. split; [exact Hkey|]. left. split; reflexivity.
+    + (* the parent is a directory below the root *)
+      destruct (mkd_sub_dir _ _ _ _ _ _ _ _ _ _ _ Hinv HP) as (_ & R1 & R2 & Hdch & _). rewrite Edc in *.
+      destruct (mkd_tree_sub _ _ _ _ _ _ _ _ Hinv (s_disk s') c newn newt W' A7 A8 Hpos A3 pe pch pkids dc pch n1 n2)
+        as (Hdisk & K3 & K4); try assumption.
+      * intros h ch Hh _. exact (Hkeep h ch Hh).
+      * intros h ch Hh Hne Hch j Hj. apply (Hother h ch j Hh Hch Hj). intros ->.
+        exact (iv_disj _ _ _ _ _ _ _ _ Hinv h dc ch pch blk Hh Hdch Hne Hch Hpch Hj Hblkin).
+      * intros E16 j Hj. destruct (iv_root16_block _ _ _ _ _ _ _ _ Hinv j E16 Hj) as [A B].
+        apply (Hfr j A (B c C1)). intros ->. apply mkd_in_data_blocks in Hblkin. destruct Hblkin as (x & Hx & Hbx).
+        exact (B x (proj1 (chain_at_mem _ _ _ _ x Hpch Hx)) Hbx).
+      * exact (Hkeep dc pch Hdch Hpch).
+      * destruct (iv_nodup _ _ _ _ _ _ _ _ Hinv) as (N1 & _ & _ & _).
+        assert (Hdc_head : In dc (flat_map node_heads T)) by (apply (own_head_in T _ _ HP); left; exact Edc).
+        assert (Hfnp : forall k, In k T -> file_not_pc dc k).
+        { apply (iv_file_not_pc _ _ _ _ _ _ _ _ Hinv). right. right. exists pe, pch, pkids. split; [exact HP|exact Edc]. }
+        exists bl, rch, (map (upd dc pch newn (length n1)) T), c, (t_entry (v_fat32 v) newt), blk, off, bytes, [], 0,
+               (data_blocks v pch), pch, (Some blk).
+        split; [apply (Hfinish bl rch _ 0 Hdisk); [left; lia|intros h ch Hh _; exact (Hkeep h ch Hh)|exact K3|exact K4]|].
+        split.
+        { intros X g Hg. apply (upd_perm_list dc pch newn (length n1) X g Hg A7 T Hdc_head); [|exact Hfnp].
+          rewrite heads_all_nodes. exact N1. }
+        split; [exact Enew|]. split; [repeat split; assumption|]. split; [exact Hframe|]. split; [exact Hchains|].
+        split; [left; lia|]. split; [left; reflexivity|]. split; [rewrite <- A6; exact Hpos|].
+        split; [exact Hslots|]. split; [constructor|]. split; [exact Hkey|]. right.
+        split; [exact Hnr|]. split; [reflexivity|]. split; [reflexivity|]. split; [exact (Hkeep dc pch Hdch Hpch)|reflexivity].
+  - (* the parent had to grow *)
+    destruct Hcl as [(C1 & C2 & Cf) Hdots Hzero].
+    set (blk := cluster_first_block v c') in *.
+    destruct (mkd_new_node (s_disk s') v dc sfn c now tm blk 0 Hspc Hfit Hrange Hlen H0 H229 Hdot C1 C2 Hdots Hzero Hc)
+      as (A1 & A2 & A3 & A4 & A5 & A6 & A7 & A8).
+    set (newt := mkd_newt (v_fat32 v) sfn tm c blk 0) in *. set (newn := mkd_newn (v_fat32 v) sfn tm c blk 0) in *.
+    assert (Hblkc : In blk (cluster_blocks v c')).
+    { unfold blk. rewrite <- (N.add_0_r (cluster_first_block v c')). apply In_cluster_blocks_intro. lia. }
+    assert (Hpos : ~ In (node_pos newn) (map node_pos (all_nodes T))).
+    { rewrite A6. apply (mkd_pos_fresh _ _ _ _ _ _ _ _ blk 0 Hinv). right. exists c'. split; [exact C1'|]. split; [exact Cf'|exact Hblkc]. }
+    assert (Hother : forall h ch j, In h hs -> chain_at (s_disk s) v h ch -> In j (data_blocks v ch) ->
+              disk_get (s_disk s') j = disk_get (s_disk s) j).
+    { intros h ch j Hh Hch Hj. destruct (iv_chain_block _ _ _ _ _ _ _ _ Hinv _ _ j Hh Hch Hj) as [A B].
+      exact (Hfr j A (B c C1 Cf) (B c' C1' Cf')). }
+    change (flat_map (cluster_blocks v) pch) with (data_blocks v pch) in Epbl. subst pbl.
+    destruct (mkd_dir_grow fsz (s_disk s) (s_disk s') v dc pp pch sfn c c' tm Hspc Hcls Hok Hlen Hfresh C1 Cf C1' Cf'
+                Hnone Hfirst Hrest Hfr A1 A2) as (Hdok & En').
+    fold blk in En'. fold newt in En'.
+    (* the slots of the parent: the old ones, then the cluster c' of zero slots with slot 0 written *)
+    set (bytes := ser_bytes (v_fat32 v) (mk_dirent sfn tm tm A_DIRECTORY c 0 blk 0)) in *.
+    assert (Hbytes : length bytes = 32%nat) by (apply ser_bytes_length; exact Hlen).
+    set (extra := map (fun t : tslot => (fst t, repeat 0 32)) (slots_of (s_disk s') (cluster_blocks v c'))).
+    assert (Hzs : Forall zero_slot extra).
+    { apply Forall_forall. intros t Ht. unfold extra in Ht. apply in_map_iff in Ht. destruct Ht as (t0 & <- & _). reflexivity. }
+    assert (Hex : map (upd_slot blk 0 bytes) extra = slots_of (s_disk s') (cluster_blocks v c')).
+    { unfold extra. rewrite map_map. rewrite <- (map_id (slots_of (s_disk s') (cluster_blocks v c'))) at 2.
+      apply map_ext_in. intros t Ht. destruct (In_slots_of _ _ _ Ht) as (b & k & Hb & Hk & ->). cbn [fst].
+      unfold upd_slot. cbn [fst snd]. destruct (In_cluster_blocks _ _ _ Hb) as (q & Hq & Eb).
+      destruct (N.eqb_spec b blk) as [Eblk|Nblk]; cbn [andb].
+      - assert (q = 0) by (unfold blk in Eblk; lia). subst q. rewrite Eblk.
+        destruct (N.eqb_spec (k * 32) 0) as [Ek|Nk].
+        + assert (k = 0) by lia. subst k. rewrite Hfirst. fold blk. fold bytes. f_equal.
+          change (set_bytes zero_block 0 bytes) with (set_bytes zero_block (0 * 32) bytes).
+          symmetry. apply slot_set_bytes_same; [exact Hbytes|]. rewrite zero_block_length. change (0 * 32) with 0. lia.
+        + f_equal. rewrite Hfirst. fold blk. fold bytes. symmetry.
+          rewrite slot_set_bytes_other; [exact (cd_slot_zero k Hk)|rewrite zero_block_length, Hbytes; lia|rewrite Hbytes; lia].
+      - f_equal. rewrite Eb. rewrite Hrest; [symmetry; exact (cd_slot_zero k Hk)| |exact Hq].
+        destruct (N.eq_dec q 0) as [->|Nq]; [|lia]. exfalso. apply Nblk. rewrite Eb. unfold blk. lia. }
+    assert (Hslots : slots_of (s_disk s') (data_blocks v (pch ++ [c'])) =
+              map (upd_slot blk 0 bytes) (slots_of (s_disk s) (data_blocks v pch) ++ extra)).
+    { rewrite mkd_data_blocks_app, mkd_data_blocks_one, slots_of_app, map_app, Hex. f_equal.
+      rewrite cd_map_upd_other.
+      - apply slots_of_ext. intros j Hj. destruct (Hcls j Hj) as [A B]. exact (Hfr j A (B c C1 Cf) (B c' C1' Cf')).
+      - intros Hin. apply cd_slot_key_block in Hin. cbn [fst] in Hin. exact (proj2 (Hcls blk Hin) c' C1' Cf' Hblkc). }
+    assert (Hkey : In (blk, 0) (map fst (slots_of (s_disk s) (data_blocks v pch) ++ extra))).
+    { rewrite map_app. apply in_or_app. right. unfold extra. rewrite map_map. cbn [fst].
+      change (fun x : tslot => fst x) with (@fst (N * N) (list N)).
+      exact (cd_slot_key_in (s_disk s') (cluster_blocks v c') blk 0 Hblkc ltac:(lia)). }
+    assert (Enew : e_cluster (t_entry (v_fat32 v) newt) = c) by (injection A8 as E; exact E).
+    assert (Hframe : mkx_frame fsz v (s_disk s) (s_disk s') None /\ forall b, @None N = Some b -> In b (data_blocks v pch)).
+    { split; [intros j A B _; exact (Hfr j A (B c C1 Cf) (B c' C1' Cf'))|]. intros b E. discriminate E. }
+    destruct Hwhere as [(-> & Ebl & ->)|(pe & pch0 & pkids & HP & Edc & Ebl & Hpch0 & Hnr')].
+    + (* the root of a FAT32 volume *)
+      rewrite N.eqb_refl, andb_true_r in Hnr. apply negb_false_iff in Hnr.
+      assert (Epc' : pc = v_root_cluster v) by (rewrite Epc; unfold dir_first_cluster; rewrite Hnr, N.eqb_refl; reflexivity).
+      unfold root_dir in Droot. rewrite Hnr in Droot. destruct Droot as (Hrch & Ebl2).
+      rewrite Epc' in *. pose proof (chain_at_det _ _ _ _ _ Hpch Hrch) as ->.
+      assert (Hrh : In (v_root_cluster v) (root_heads v)) by (unfold root_heads; rewrite Hnr; left; reflexivity).
+      destruct (iv_nodup _ _ _ _ _ _ _ _ Hinv) as (_ & _ & N3 & _).
+      assert (Hne_root : forall h, In h (flat_map node_heads T ++ pend_of s v) -> h <> v_root_cluster v).
+      { intros h Hh ->. destruct (N3 _ Hrh) as [X Y]. apply in_app_or in Hh. destruct Hh; contradiction. }
+      destruct (mkd_tree_root _ _ _ _ _ _ _ _ Hinv (s_disk s') c newn newt W' A7 A8 Hpos A3
+                  (data_blocks v (rch ++ [c'])) (rch ++ [c']) (dir_nodes (s_disk s) bl) [])
+        as (Hdisk & K3 & K4); try assumption.
+      * unfold root_dir. rewrite Hnr. split; [exact Hpc'|reflexivity].
+      * intros h ch Hh. exact (Hkeep h ch (Hhs_tail h Hh) (Hne_root h Hh)).
+      * intros h ch Hh Hch j Hj. exact (Hother h ch j (Hhs_tail h Hh) Hch Hj).
+      * symmetry. apply app_nil_r.
+      * rewrite En', Ebl2. reflexivity.
+      * exact (Hdok CL_ROOT Hok).
+      * exists (data_blocks v (rch ++ [c'])), (rch ++ [c']), (ins newn (length (dir_nodes (s_disk s) bl)) T), c,
+               (t_entry (v_fat32 v) newt), blk, 0, bytes, extra, (v_root_cluster v), (data_blocks v (rch ++ [c'])), (rch ++ [c']), (@None N).
+        split; [apply (Hfinish _ _ _ (v_root_cluster v) Hdisk); [right; left; exact Hrh|exact Hkeep|exact K3|exact K4]|].
+        split; [intros X g _; exact (ins_perm newn _ X g A7 T)|].
+        split; [exact Enew|]. split; [repeat split; assumption|]. split; [exact Hframe|]. split; [exact Hkeep|].
+        split; [right; left; exact Hrh|]. split; [right; exists rch; split; [exact Hrch|reflexivity]|].
+        split; [rewrite <- A6; exact Hpos|].
+        split; [exact Hslots|]. split; [exact Hzs|]. split; [exact Hkey|]. left. split; reflexivity.
+    + (* a directory below the root *)
+      destruct (mkd_sub_dir _ _ _ _ _ _ _ _ _ _ _ Hinv HP) as (_ & R1 & R2 & Hdch & _). rewrite Edc in *.
+      assert (Epc' : pc = dc).
+      { rewrite Epc. unfold dir_first_cluster. replace (dc =? CL_ROOT) with false by (symmetry; apply N.eqb_neq; exact Hnr').
+        rewrite andb_false_r. reflexivity. }
+      rewrite Epc' in *. pose proof (chain_at_det _ _ _ _ _ Hpch Hpch0) as ->.
+      destruct (mkd_tree_sub _ _ _ _ _ _ _ _ Hinv (s_disk s') c newn newt W' A7 A8 Hpos A3 pe pch0 pkids dc (pch0 ++ [c'])
+                  (dir_nodes (s_disk s) (data_blocks v pch0)) [])
+        as (Hdisk & K3 & K4); try assumption.
+      * intros h ch Hh _ Hch j Hj. exact (Hother h ch j Hh Hch Hj).
+      * intros E16 j Hj. destruct (iv_root16_block _ _ _ _ _ _ _ _ Hinv j E16 Hj) as [A B]. exact (Hfr j A (B c C1) (B c' C1')).
+      * symmetry. apply app_nil_r.
+      * destruct (iv_nodup _ _ _ _ _ _ _ _ Hinv) as (N1 & _ & _ & _).
+        assert (Hdc_head : In dc (flat_map node_heads T)) by (apply (own_head_in T _ _ HP); left; exact Edc).
+        assert (Hpcok : mkx_pc_ok v T dc) by (right; right; exists pe, pch0, pkids; split; assumption).
+        assert (Hfnp : forall k, In k T -> file_not_pc dc k) by exact (iv_file_not_pc _ _ _ _ _ _ _ _ Hinv dc Hpcok).
+        exists bl, rch, (map (upd dc (pch0 ++ [c']) newn (length (dir_nodes (s_disk s) (data_blocks v pch0)))) T), c,
+               (t_entry (v_fat32 v) newt), blk, 0, bytes, extra, dc, (data_blocks v (pch0 ++ [c'])), (pch0 ++ [c']), (@None N).
+        split; [apply (Hfinish bl rch _ dc Hdisk); [exact Hpcok|exact Hkeep|exact K3|exact K4]|].
+        split.
+        { intros X g Hg. apply (upd_perm_list dc (pch0 ++ [c']) newn _ X g Hg A7 T Hdc_head); [|exact Hfnp].
+          rewrite heads_all_nodes. exact N1. }
+        split; [exact Enew|]. split; [repeat split; assumption|]. split; [exact Hframe|]. split; [exact Hkeep|].
+        split; [exact Hpcok|]. split; [right; exists pch0; split; [exact Hpch0|reflexivity]|].
+        split; [rewrite <- A6; exact Hpos|].
+        split; [exact Hslots|]. split; [exact Hzs|]. split; [exact Hkey|]. right.
+        split; [exact Hnr'|]. split; [reflexivity|]. split; [reflexivity|]. split; [exact Hpc'|reflexivity].
+Qed.
+
+(* ---- 2d. what the views show after make_dir ---- *)
+Section MkViews.
+  Variables (fsz vid : N) (s : st) (vi : nat) (v : vol) (bl rch : list N) (T : list node).
+  Hypothesis Hinv : fs_inv_at fsz vid s vi v bl rch T.
+  Variables (s' : st) (v' : vol) (bl' rch' : list N) (T' : list node).
+  Hypothesis Hinv' : fs_inv_at fsz vid s' vi v' bl' rch' T'.
+  Hypothesis G : geo_eq v v'.
+  Hypothesis Efiles : s_files s' = s_files s.
+  Variables (oblk : option N) (pcd : N).
+  Hypothesis Hframe : mkx_frame fsz v (s_disk s) (s_disk s') oblk.
+  Hypothesis Hchains : mkx_chains s v T (s_disk s') pcd.
+  Hypothesis Hpc : mkx_pc_ok v T pcd.
+  (* the block excluded from the frame, if any, belongs to the directory dc of the tree *)
+  Variables (dc : N) (pbl pch0 : list N).
+  Hypothesis Hdir : is_dir_of v bl rch T dc pbl pch0.
+  Hypothesis Hoblk : forall b, oblk = Some b -> In b pbl.
+  Hypothesis Hnodes : forall e ch, In (NFile e ch) (all_nodes T') <-> In (NFile e ch) (all_nodes T).
+  Local Notation d := (s_disk s).
+  Local Notation d' := (s_disk s').
+
+  Let HD := fi_disk _ _ _ _ _ _ _ _ Hinv.
+  Let HD' := fi_disk _ _ _ _ _ _ _ _ Hinv'.
+  Let W := di_wf _ _ _ _ _ _ HD.
+
+  (* the blocks of the chain of a head of the invariant that is no directory *)
+  Lemma mv_chain_blocks h ch : In h (iv_hs s v T) -> chain_at d v h ch ->
+    (forall b, In b pbl -> ~ In b (data_blocks v ch)) ->
+    forall j, In j (data_blocks v ch) -> disk_get d' j = disk_get d j.
+  Proof.
+    intros Hh Hch Hap j Hj. destruct (iv_chain_block _ _ _ _ _ _ _ _ Hinv h ch j Hh Hch Hj) as [A B].
+    apply (Hframe j A B). intros b Eb ->. exact (Hap b (Hoblk b Eb) Hj).
+  Qed.
+
+  Lemma mv_file_bytes e ch : In (NFile e ch) (all_nodes T) -> file_bytes d' v' ch = file_bytes d v ch.
+  Proof.
+    intros Hn. rewrite (file_bytes_geo _ v v' ch G). apply PrOpenClose.file_bytes_frame.
+    destruct (cd_file_chain _ _ _ _ _ _ _ _ Hinv e ch Hn) as [->|(_ & Hc & Hin)]; [intros j []|].
+    apply (mv_chain_blocks (e_cluster e) ch Hin Hc). intros b Hb.
+    exact (proj1 (cd_dir_file_apart _ _ _ _ _ _ _ _ Hinv dc pbl pch0 b Hdir Hb) e ch Hn).
+  Qed.
+
+  Lemma mv_fchain f : In f (s_files s) -> fchain d' v' f = fchain d v f.
+  Proof.
+    intros Hf. unfold fchain. destruct (N.ltb_spec (e_cluster (f_entry f)) 2) as [H2|H2]; [reflexivity|].
+    rewrite (mkd_chain_l_geo _ v v' _ G).
+    exact (chain_l_at _ _ _ _ (mkd_file_chains _ _ _ _ _ _ _ _ d' pcd Hinv Hpc Hchains f Hf H2)).
+  Qed.
+
+  Lemma mv_open_bytes f : In f (s_files s) -> file_bytes d' v' (fchain d v f) = file_bytes d v (fchain d v f).
+  Proof.
+    intros Hf. rewrite (file_bytes_geo _ v v' _ G). apply PrOpenClose.file_bytes_frame.
+    unfold fchain in *. destruct (N.ltb_spec (e_cluster (f_entry f)) 2) as [H2|H2]; [intros j []|].
+    pose proof (ofile_in_hs _ _ _ _ _ _ _ _ Hinv f Hf H2) as Hin.
+    apply (mv_chain_blocks _ _ Hin (wf_l_def _ _ _ _ W Hin)). intros b Hb.
+    pose proof (proj2 (cd_dir_file_apart _ _ _ _ _ _ _ _ Hinv dc pbl pch0 b Hdir Hb) f Hf) as X.
+    unfold fchain in X. replace (e_cluster (f_entry f) <? 2) with false in X by (symmetry; apply N.ltb_ge; exact H2).
+    exact X.
+  Qed.
+
+  Lemma mv_mem_item e ch : In (NFile e ch) (all_nodes T) -> mem_item s' v' (NFile e ch) = mem_item s v (NFile e ch).
+  Proof.
+    intros Hn. unfold mem_item, open_at. rewrite Efiles.
+    destruct (find (fun f => pos_eqb (slot_key f) (node_pos (NFile e ch))) (s_files s)) as [f|] eqn:Ef.
+    - destruct (find_some _ _ Ef) as (Hf & _). unfold mem_fv. rewrite (mv_fchain f Hf), (mv_open_bytes f Hf). reflexivity.
+    - unfold disk_fv. cbn [node_entry node_chain]. rewrite (mv_file_bytes e ch Hn). reflexivity.
+  Qed.
+
+  (* no file position changes in either view; the handle table is the same *)
+  Theorem mv_files_same : files_same (obs_at s v bl T) (obs_at s' v' bl' T') /\
+    ob_handles (obs_at s' v' bl' T') = ob_handles (obs_at s v bl T).
+  Proof.
+    split; [|exact (cd_handles_same s s' Efiles)].
+    intros q. cbn [obs_at ob_mem ob_disk]. unfold mem_view, disk_view. split.
+    - apply cd_vget_transfer; [exact (di_pos _ _ _ _ _ _ HD)|exact (di_pos _ _ _ _ _ _ HD')| |].
+      + intros e ch _. exact (Hnodes e ch).
+      + intros e ch Hn _. exact (mv_mem_item e ch Hn).
+    - apply cd_vget_transfer; [exact (di_pos _ _ _ _ _ _ HD)|exact (di_pos _ _ _ _ _ _ HD')| |].
+      + intros e ch _. exact (Hnodes e ch).
+      + intros e ch Hn _. unfold disk_fv. cbn [node_entry node_chain]. rewrite (mv_file_bytes e ch Hn). reflexivity.
+  Qed.
+
+  (* the blocks of a directory of the tree other than dc are as before *)
+  Lemma mv_dir_blocks c0 bld0 chd0 : is_dir_of v bl rch T c0 bld0 chd0 -> c0 <> dc ->
+    forall j, In j bld0 -> disk_get d' j = disk_get d j.
+  Proof.
+    intros Hd0 Hne j Hj.
+    assert (Hap : forall b, oblk = Some b -> j <> b).
+    { intros b Eb ->. apply Hne.
+      exact (dirs_apart _ _ _ _ _ _ _ _ HD (fi_layout _ _ _ _ _ _ _ _ Hinv) c0 dc bld0 pbl chd0 pch0 b Hd0 Hdir Hj (Hoblk b Eb)). }
+    destruct Hd0 as [(_ & -> & _)|(e & kids & Hn & _ & ->)].
+    - destruct (proj1 (proj2 (iv_root_blocks _ _ _ _ _ _ _ _ Hinv)) j Hj) as [A B]. exact (Hframe j A B Hap).
+    - destruct (mkd_sub_dir _ _ _ _ _ _ _ _ _ _ _ Hinv Hn) as (Hch & _ & _ & Hh & _).
+      destruct (iv_chain_block _ _ _ _ _ _ _ _ Hinv _ _ j Hh Hch Hj) as [A B]. exact (Hframe j A B Hap).
+  Qed.
+End MkViews.
